@@ -101,7 +101,9 @@ class MeasurementOutcomeDistribution:
             raise ValueError("There exist duplicate indices in the active qubit list")
 
         for key in copy.deepcopy(list(self.distribution_dict.keys())):
-            new_key = "".join(str(key[i]) for i in active_qubits)
+            # A tuple key: joining the entries into one string would re-split multi-digit
+            # entries into single digits.
+            new_key = tuple(key[i] for i in active_qubits)
             new_counts[new_key] = self.distribution_dict[key] + new_counts.get(
                 new_key, 0
             )
